@@ -125,6 +125,7 @@ type vfMConn struct {
 	interleaved               bool
 	unreadWhileOtherFirstRead bool // bytes had arrived inside a real side (consumed from the wire, not yet delivered) while another connection completed a first Read
 	unreadMax                 int
+	unreadArrived             bool
 }
 
 func (m *vfMConn) ready(i int) bool {
@@ -147,14 +148,10 @@ func (m *vfMConn) complete() bool {
 
 // holdPoint names what a held real side is parked in.
 func (e *vfMSide) holdPoint() string {
-	switch {
-	case !e.ep.SetupDone():
-		return "first-flight-write"
-	case e.gate.heldWrite() == 1:
-		return "padding+magic-write"
-	default:
-		return "data-write"
+	if !e.ep.SetupDone() {
+		return "key-exchange-write"
 	}
+	return "first-application-write"
 }
 
 // settle waits until every goroutine of the connection (endpoint goroutines
@@ -207,10 +204,13 @@ func TestVerifC13Interleaved(t *testing.T) {
 	c := ev.For("C13")
 	c.Rule("interleaved: 2..4 connections of one process (each real client<->reference server, reference client<->real server or real<->real), every transport write of a real side held before its bytes are consumed; generated schedule of bursts (connection, 1..6 steps or 'to completion'); step = start a side / let a held write through / release pending bytes (all, 1, 32, 192, 1000) to a reader / start a side's first application Write in its own goroutine / for a real side whose application reader is stepped (2 of 3): grant one Read call of 1..64 or 65536 bytes, or resume free reading (so bytes that arrived with the magic can sit inside the transport while other connections run); a connection is complete when both first Writes returned and both readers hold exactly the peer's bytes; then every connection carries more data both ways; exact stream oracle after every step; non-trivial = another connection ran at least one step while a connection was parked between two of its own steps before completing; fingerprint = configuration + schedule")
 	c.Floor("interleaved-nontrivial/interleaved", 0.70)
-	c.Floor("interleaved-other-ran-while-held@first-flight-write/interleaved", 0.30)
-	c.Floor("interleaved-other-ran-while-held@padding+magic-write/interleaved", 0.30)
+	// (hold points are named by phase, not by the number of the transport write:
+	// how many writes carry a flight is the implementation's business; the
+	// per-index classes "...#k" are counted without floors)
+	c.Floor("interleaved-other-ran-while-held@key-exchange-write/interleaved", 0.30)
+	c.Floor("interleaved-other-ran-while-held@first-application-write/interleaved", 0.30)
 	c.Floor("interleaved-other-ran-between-key-exchange-and-first-write/interleaved", 0.30)
-	c.Floor("interleaved-unread-bytes-inside-while-other-first-read/interleaved", 0.25)
+	c.Floor("interleaved-unread-bytes-arrived-while-other-first-read/interleaved", 0.25)
 	rapid.Check(t, func(rt *rapid.T) {
 		K := rapid.IntRange(2, 4).Draw(rt, "connections")
 		rk := rapid.Uint64().Draw(rt, "detrand")
@@ -268,6 +268,12 @@ func TestVerifC13Interleaved(t *testing.T) {
 					r := o.ends[1-i]
 					if !r.real || !r.started || w.wState != 2 {
 						continue
+					}
+					// arrived for a paused application (floor), and - counted only, since
+					// it presupposes that the transport reads ahead - already taken off
+					// the wire by the transport
+					if int(o.n.Released(w.side))-w.pre-r.ep.GotLen() > 0 && r.pr != nil && r.pr.isWaiting() {
+						o.unreadArrived = true
 					}
 					inside := int(o.n.Consumed(w.side)) - w.pre - r.ep.GotLen()
 					if inside > 0 {
@@ -394,6 +400,7 @@ func TestVerifC13Interleaved(t *testing.T) {
 				for _, e := range o.ends {
 					if e.gate != nil && e.started && e.gate.isHeld() {
 						o.overlapHeld[e.holdPoint()] = true
+						o.overlapHeld[fmt.Sprintf("transport-write#%d", e.gate.heldWrite())] = true
 						heldSomewhere = true
 					}
 				}
@@ -625,6 +632,9 @@ func TestVerifC13Interleaved(t *testing.T) {
 			}
 			if m.unreadWhileOtherFirstRead {
 				add("interleaved-unread-bytes-inside-while-other-first-read")
+			}
+			if m.unreadArrived {
+				add("interleaved-unread-bytes-arrived-while-other-first-read")
 			}
 			for _, e := range m.ends {
 				if e.pr != nil && e.smallGrants > 0 {
